@@ -63,6 +63,12 @@ check("C09", "exploration",
   "Small key alphabet (3 values + null) and k<=4; cross-input tie order is not constrained; forward seeks on merged rows are not part of this check.",
   "DESIGN.md §2 C09")
 
+check("C13", "fault_enumeration",
+  "exhaustive fault enumeration: every single bit and every short burst of every page body of a family of small real files, crossed with every access path and every seek target; page bodies located by the independent decoder",
+  "32 files (plain/dictionary x v1/v2 x none/snappy/gzip/zstd x 1/2 row groups, 4 columns incl. optional and repeated, several pages per chunk): for every data and dictionary page, every bit of the stored body is flipped and every 2-3 (thorough 4, 8) byte window is overwritten with 0x00/0xFF/its inverse, and each corrupted file is read through 9 access paths including SeekToRow(k) for every k followed by row, page and reader reads, the value reader and async mode. An access that needs the page must return an error that errors.Is ErrCorrupted, never differing data with a nil error, never a panic; rows delivered before the error must equal the intact file's. CRC-32 detects all these faults, so the verdict is exact.",
+  "Corruption of page headers, footers and page indexes is outside the statement; pages whose CRC is exactly 0 are not verified by the library (1 in 2^32).",
+  "DESIGN.md §2 C13")
+
 NOT_YET = "check not built yet in this round (design in DESIGN.md §2); not claimed until its check exists"
 
 m = {
